@@ -5,7 +5,7 @@ plays the engine and answers every detector read with the next entry of a tape o
 response, not a function of position -- for up to K readings.
 
 adaptive_scan (start = 0 by translation invariance; direction, backstep by fork; stop, min_step, max_step,
-target_delta, threshold in (0,1) symbolic): every visited position lies in [start, stop) in scan direction; no two
+target_delta, threshold in (0, 0.999] symbolic): every visited position lies in [start, stop) in scan direction; no two
 consecutive readings are taken at the same position (no stall -- with C29's "terminates" in mind: a backstep must
 come with a strictly smaller step); with backstep off every reading advances by at least min(min_step, first step),
 so a range shorter than two such advances must be finished after three readings.
@@ -99,16 +99,17 @@ def make_adaptive(P):
     def h(stop: Real, mn: Real, mx: Real, td: Real, thr: Real, down: bool, back: bool, r1: Real, r2: Real, r3: Real, r4: Real, r5: Real) -> str:
         sign = -1 if fork_bool(down) else 1
         bs = fork_bool(back)
-        only_shard((1 if sign < 0 else 0) + 2 * (1 if bs else 0), P)
         assume(mn > 0)
         assume(mx > mn)
         assume(td > 0)
         assume(thr > 0)
-        assume(thr < 1)
+        assume(thr <= 0.999)  # a backstep then shrinks the step by at least 0.1 %: far above the stall tolerance below
         assume(stop * sign > 0)
         step0 = (mx - mn) / 2
         m_adv = step0 if step0 < mn else mn  # the smallest advance the algorithm can make
         short = fork_bool(stop * sign <= 2 * m_adv)
+        big = fork_bool(r2 - r1 > td) if True else False  # an extra early split, only to spread the work over more shards
+        only_shard((1 if sign < 0 else 0) + 2 * (1 if bs else 0) + 4 * (1 if step0 < mn else 0) + 8 * (1 if short else 0) + 16 * (1 if big else 0), P)
         with symnp.installed(bp, bps):
             gen = bp.adaptive_scan([Det()], "det", Motor(), 0.0, stop, mn, mx, td, bs, thr)
             visited, sets, finished = drive(gen, [r1, r2, r3, r4, r5], K)
@@ -119,7 +120,7 @@ def make_adaptive(P):
             if not (p * sign < stop * sign):
                 tags.append("adaptive_scan:position-at-or-beyond-stop")
         for a, b in zip(visited, visited[1:]):
-            if a == b:
+            if abs(b - a) * 1e9 <= m_adv:  # less than a billionth of the smallest advance: the same position up to float rounding
                 tags.append("adaptive_scan:consecutive-readings-at-the-same-position")
         if len(visited) >= 3:
             goal("three-readings")
@@ -200,10 +201,10 @@ def _ft():
 
 
 _ST = "numpy replaced by vlib/symnp.py (abs, clip, min; validated against numpy each run); a message consumer stands in for the RunEngine; detector readings come from a tape of symbolic reals"
-register(Harness("c29_adaptive", "C29", make_adaptive, {"quick": dict(K=3, shards=4, budget_s=400, per_path_s=60), "thorough": dict(K=4, shards=4, budget_s=3000, per_path_s=120)},
+register(Harness("c29_adaptive", "C29", make_adaptive, {"quick": dict(K=4, shards=32, budget_s=400, per_path_s=60), "thorough": dict(K=5, shards=32, budget_s=3000, per_path_s=120)},
                  goals=["three-readings", "finished"], functions=_fa, mode="traced", float_model="real", opaque_text=True,
-                 symbolic="stop, min_step, max_step, target_delta, threshold in (0,1): symbolic reals (start = 0); direction and backstep by fork; the first K detector readings: arbitrary symbolic reals",
-                 out_of_bound="more than K readings per scan (termination is checked as: no stall, and with backstep off a minimum advance per reading); threshold >= 1 (a backstep then never shrinks the step: outside the documented use); NaN/inf readings and float rounding (exact reals)",
+                 symbolic="stop, min_step, max_step, target_delta, threshold in (0, 0.999]: symbolic reals (start = 0); direction and backstep by fork; the first K detector readings: arbitrary symbolic reals",
+                 out_of_bound="more than K readings per scan (termination is checked as: no stall, and with backstep off a minimum advance per reading); threshold above 0.999 (a backstep then never shrinks the step: outside the documented use); NaN/inf readings and float rounding (exact reals)",
                  stubs=_ST, require_exhaustive=True))
 register(Harness("c29_tune", "C29", make_tune, {"quick": dict(K=5, shards=16, budget_s=400, per_path_s=60), "thorough": dict(K=7, shards=16, budget_s=3000, per_path_s=120)},
                  goals=["finished", "second-pass", "parked"], functions=_ft, mode="traced", float_model="real", opaque_text=True,
